@@ -388,10 +388,10 @@ m("C16-sender-wake-before-push", "C16", "src/cqueue.rs",
             kind: EventKind::Normal,
             co: Some(co),
         });
-        if let Some(w) = self.cqueue.to_wake.take() {
+        if let Some(w) = to_wake.take() {
             w.unpark();
         }""",
-  """        let w = self.cqueue.to_wake.take();
+  """        let w = to_wake.take();
         self.cqueue.ev_queue.push(Event {
             id: self.id,
             token: self.token,
